@@ -45,7 +45,7 @@ Upd(D, loc, v) == IF loc.known THEN SetPath(D, loc.p, v) ELSE D
 Letters == {"a","b","c","d","e","f","g","h","i","j","k","l","m","n","o","p","q","r","s","t","u","v","w","x","y","z",
             "A","B","C","D","E","F","G","H","I","J","K","L","M","N","O","P","Q","R","S","T","U","V","W","X","Y","Z"}
 Digits  == {"0","1","2","3","4","5","6","7","8","9"}
-PathSafe == Letters \cup Digits \cup {"_", "$", ".", ":", "-", "/"}
+PathSafe == Letters \cup Digits \cup {"_", "$", ".", ":", "-", "/", "{"}   \* "{" inside a plain scalar is an ordinary character
 (* yaml.v3 resolves only these plain words to non-strings (the YAML 1.1    *)
 (* yes/no/on/off/y/n are booleans only for typed targets)                  *)
 YamlWords == {"true","false","null","True","False","Null","TRUE","FALSE","NULL"}
@@ -78,8 +78,13 @@ GetPathFromList(obj, ctx, q) ==
      ELSE IF \E i \in DOMAIN rest : ~IsStr(rest[i]) THEN Err("invalidtype")
      ELSE GetPath(doc.v, [i \in DOMAIN rest |-> Pay(rest[i])])
 
+(* the code reads the reference as YAML: a text that opens a flow mapping and *)
+(* never closes it ("{n") does not parse, which is an error of the lookup    *)
+UnclosedFlow(s) == Len(s) > 0 /\ Char(s, 1) = "{" /\ \A i \in 1..Len(s) : Char(s, i) # "}"
 GetPathFromString(obj, ctx, s) ==
-  IF PlainPath(s) THEN GetPath(obj, Split(s, ".")) ELSE Err("undef")
+  IF PlainPath(s) THEN GetPath(obj, Split(s, "."))
+  ELSE IF UnclosedFlow(s) THEN Err("yamlerror")
+  ELSE Err("undef")
 
 RECURSIVE Get(_, _, _)
 Get(obj, ctx, ref) ==
